@@ -585,6 +585,24 @@ impl<'a> JSONValidator<'a> {
   // - Err only for fatal errors that abort validation entirely.
   // ---------------------------------------------------------------------
 
+  /// A control operator restricts its target type: check that the value is a
+  /// member of the target before the controller is applied. Returns false
+  /// (with the mismatch recorded as an error) when it is not. Arrays are left
+  /// to the controller, which validates them item by item.
+  fn value_matches_control_target(
+    &mut self,
+    target: &Type2<'a>,
+  ) -> std::result::Result<bool, Error> {
+    if matches!(&self.json, Value::Array(_)) {
+      return Ok(true);
+    }
+    let error_count = self.errors.len();
+    let ctrl = self.state.ctrl.take();
+    self.visit_type2(target)?;
+    self.state.ctrl = ctrl;
+    Ok(self.errors.len() == error_count)
+  }
+
   /// Match a group against elems[cursor..]:
   /// prioritized choice over the group's choices
   fn seq_match_group(
@@ -1519,6 +1537,10 @@ impl<'a> Visitor<'a, '_, Error> for JSONValidator<'a> {
           if is_ident_string_data_type(self.state.cddl, ident)
             || is_ident_numeric_data_type(self.state.cddl, ident)
           {
+            // the value has to be a member of the target type as well
+            if !self.value_matches_control_target(target)? {
+              return Ok(());
+            }
             return self.visit_type2(controller);
           }
         }
@@ -1548,6 +1570,9 @@ impl<'a> Visitor<'a, '_, Error> for JSONValidator<'a> {
           if is_ident_string_data_type(self.state.cddl, ident)
             || is_ident_numeric_data_type(self.state.cddl, ident)
           {
+            if !self.value_matches_control_target(target)? {
+              return Ok(());
+            }
             self.state.ctrl = Some(ctrl);
             self.visit_type2(controller)?;
             self.state.ctrl = None;
@@ -1580,6 +1605,9 @@ impl<'a> Visitor<'a, '_, Error> for JSONValidator<'a> {
       ControlOperator::LT | ControlOperator::GT | ControlOperator::GE | ControlOperator::LE => {
         match target {
           Type2::Typename { ident, .. } if is_ident_numeric_data_type(self.state.cddl, ident) => {
+            if !self.value_matches_control_target(target)? {
+              return Ok(());
+            }
             self.state.ctrl = Some(ctrl);
             self.visit_type2(controller)?;
             self.state.ctrl = None;
@@ -1597,6 +1625,9 @@ impl<'a> Visitor<'a, '_, Error> for JSONValidator<'a> {
           if is_ident_string_data_type(self.state.cddl, ident)
             || is_ident_uint_data_type(self.state.cddl, ident) =>
         {
+          if !self.value_matches_control_target(target)? {
+            return Ok(());
+          }
           self.state.ctrl = Some(ctrl);
           self.visit_type2(controller)?;
           self.state.ctrl = None;
